@@ -77,8 +77,8 @@ pub fn jop(op: &Op) -> String {
 
 pub type OpResult = Result<usize, iroh_docs::sync::InsertError>;
 
-/// Run the ops on a fresh replica; returns per-op results and the final content.
-pub fn run_ops(w: &World, ops: &[Op], persistent: bool) -> anyhow::Result<(Vec<OpResult>, Vec<SignedEntry>)> {
+/// Run the ops on a fresh replica; returns the store (replica closed) and the per-op results.
+pub fn build_state(w: &World, ops: &[Op], persistent: bool) -> anyhow::Result<(TestStore, Vec<OpResult>)> {
     let rt = rt();
     let mut ts = TestStore::new(persistent)?;
     let mut results = Vec::new();
@@ -107,8 +107,21 @@ pub fn run_ops(w: &World, ops: &[Op], persistent: bool) -> anyhow::Result<(Vec<O
         ts.s().flush()?;
         ts.reopen()?;
     }
+    Ok((ts, results))
+}
+
+/// Run the ops on a fresh replica; returns per-op results and the final content.
+pub fn run_ops(w: &World, ops: &[Op], persistent: bool) -> anyhow::Result<(Vec<OpResult>, Vec<SignedEntry>)> {
+    let (mut ts, results) = build_state(w, ops, persistent)?;
     let fin = all_entries(ts.s(), w.ns_id())?;
     Ok((results, fin))
+}
+
+pub fn cops(w: &World, ops: &[Op], results: &[OpResult]) -> String {
+    clist(ops.iter().zip(results), |(o, r)| format!("({}, {})", cop(w, o), cresult(r)))
+}
+pub fn jops(ops: &[Op]) -> String {
+    ops.iter().map(jop).collect::<Vec<_>>().join(",")
 }
 
 pub fn case_terms(w: &World, ops: &[Op], results: &[OpResult], fin: &[SignedEntry], persistent: bool) -> (String, String) {
